@@ -52,6 +52,30 @@ CHECKS = {
         "components": {"real": REAL, "stub": ["stream source (simulated disk with chunking, EOF-with-data, read errors, truncation, corruption)", "entropy source (keyed PRF)"]},
         "assumptions": ["panics in goroutines that the verifier itself starts kill the worker and are attributed by re-running the run alone", "allocation bombs are run under a 12 GB address-space limit"],
     },
+    "C01": {
+        "engine": "c01",
+        "level": "fault_enumeration",
+        "rule": "one evaluation = one Verify of a faulted (proof, public witness) delivery judged against the session ledger; faults: none, replay across sessions, proof under independent keys, "
+                "substitution of every proof element (infinity / negation / multiple / sum / element of the same or another proof; scalars +-1, 0, negated, swapped), list edits (shorten, extend, swap, empty), "
+                "public-input edits (+-1, swap, replace), the crafted surplus commitment sum (x'-x)K, byte flips on both encodings, prover-memory fault through the post-solve hook; a case = (curve, circuit, fault tape)",
+        "quick": {"runs": 480, "budget_s": 220, "selftest_runs": 4, "params": {"slots": 24, "faults": 40}},
+        "thorough": {"runs": 20000, "budget_s": 2700, "selftest_runs": 6, "params": {"slots": 64, "faults": 80}},
+        "expect_probes": ["none", "replay_other_session", "other_keys", "element_substitution", "list_edit", "public_input_edit", "byte_flip", "prover_memory_fault", "accepted", "rejected", "circuit_with_commitment", "crafted_surplus_commitment"],
+        "components": {"real": REAL + ["post-solve hook (constraint/verifhook, -tags verif) hands the solved vectors to the harness"], "stub": ["the wire between prover and verifier (harness transport over the real serialised bytes)", "entropy source (keyed PRF)", "prover memory under fault (one solved wire / trace cell overwritten)"]},
+        "assumptions": ["single-element edits and recombinations of available elements only: forgeries that need new algebra are the cryptographic assumption itself", "points outside the prime-order subgroup are not generated", "legitimacy of an accepted altered statement is decided by the program evaluator with the session's secret inputs"],
+    },
+    "C02": {
+        "engine": "c02",
+        "level": "fault_enumeration",
+        "rule": "one evaluation = one Verify of a faulted (proof, public witness) delivery judged against the session ledger; faults: none, replay across sessions, proof under independent keys, "
+                "substitution of every proof element (infinity / negation / multiple / sum / element of the same or another proof; scalars +-1, 0, negated, swapped), list edits (shorten, extend, swap, empty), "
+                "public-input edits (+-1, swap, replace), byte flips on both encodings, prover-memory fault through the post-solve hook; a case = (curve, circuit, fault tape)",
+        "quick": {"runs": 480, "budget_s": 220, "selftest_runs": 4, "params": {"slots": 24, "faults": 40}},
+        "thorough": {"runs": 20000, "budget_s": 2700, "selftest_runs": 6, "params": {"slots": 64, "faults": 80}},
+        "expect_probes": ["none", "replay_other_session", "other_keys", "element_substitution", "list_edit", "public_input_edit", "byte_flip", "prover_memory_fault", "accepted", "rejected", "circuit_with_commitment"],
+        "components": {"real": REAL + ["post-solve hook (constraint/verifhook, -tags verif) hands the solved vectors to the harness"], "stub": ["the wire between prover and verifier (harness transport over the real serialised bytes)", "entropy source (keyed PRF)", "prover memory under fault (one solved wire / trace cell overwritten)"]},
+        "assumptions": ["single-element edits and recombinations of available elements only: forgeries that need new algebra are the cryptographic assumption itself", "points outside the prime-order subgroup are not generated", "legitimacy of an accepted altered statement is decided by the program evaluator with the session's secret inputs"],
+    },
     "C06": {
         "engine": "c06",
         "level": "exploration",
